@@ -130,7 +130,9 @@ CLAIMED = {
               "alone (monotonicity of rounding), and a kernel-evaluated table over the finite domain 1..250 lifts to: new limit "
               "in 1..250, rise <= ceil(max(3,10%)), fall <= ceil(max(1,20%)); hence every limit of every recalibration history "
               "from 50 is in range. Awaiting requests <= largest limit in force and one retired permit per completion are the "
-              "limiter theorems of C13 instantiated for the outgoing limiter. A wait under timeout_after(T) ends by T with the "
+              "limiter theorems of C13 instantiated for the outgoing limiter; that the requests awaiting their response ARE holders "
+              "of that limiter is a theorem about the shape of _send_concurrent regenerated from the source (the wait happens only "
+              "inside the limiter's block, entered first and once; model/Throttle.v). A wait under timeout_after(T) ends by T with the "
               "response, TaskTimeout or the cancellation, for every peer delay and cancel instant (timeout model of C11). "
               "Correspondence: the real _recalc_concurrency for every current limit x response-time histories; oracle: "
               "virtual-time workloads (up to 120 callers, singles and batches, peer answering late/never/partly/garbage, "
